@@ -180,6 +180,7 @@ func (k *Keyed[K, V]) SetKey(key K, start bool) (V, bool) {
 // RemoveKey removes the given key from the set, if it exists.
 // Returns if it existed.
 func (k *Keyed[K, V]) RemoveKey(key K) bool {
+	verifPoint(5, key)
 	k.mtx.Lock()
 	defer k.mtx.Unlock()
 
